@@ -81,3 +81,51 @@ def fmtOf (codes : List Fmt) (i : Nat) : Fmt :=
   | _ => (codes[i]?).getD .text
 
 end AcraModel.Proxy
+
+/-! ### MySQL front end, query-encryptor level (`encryptor/mysql/queryDataEncryptor.go`)
+
+The column transformations are the same chain; the differences are in the statement handling:
+VALUES rows are processed cell by cell whatever their arity (`if j >= len(columnsName) continue`), and the
+literal coder (`mysql.DBDataCoder`) takes string / integer literals as they are and writes the result back
+as a hex literal `X'…'` unless it is valid UTF-8 – so at value level the forwarded cell simply denotes the
+bytes the chain returned. -/
+namespace AcraModel.Proxy
+open AcraModel AcraModel.Envelope
+
+/-- `encryptExpression` + `UpdateExpressionValue` with `mysql.DBDataCoder`; the forwarded literal is given
+by the bytes it denotes -/
+def encCellMy (c : CryptoOps) (kv : KeyView) : Xf Bytes := fun s cell rnd =>
+  let run (raw : Bytes) : Option (Cell × Bytes) :=
+    if raw.isEmpty then some (cell, rnd) else
+    match writeChain c kv s raw rnd with
+    | .ok nd => if nd == raw then some (cell, rnd) else some (.lit nd, rnd.drop (chainUsed s raw))
+    | _ => none
+  match cell with
+  | .lit b => run b
+  | .num b => run b
+  | _ => some (cell, rnd)
+
+/-- VALUES rows of a MySQL INSERT: no arity test -/
+def xfRowsMy {σ} (f : Xf σ) (t : Table) (cols : List Name) : List (List Cell) → σ → Option (List (List Cell) × σ)
+  | [], st => some ([], st)
+  | r :: rs, st =>
+    match xfRow f t cols r st with
+    | none => none
+    | some (r', st') => (xfRowsMy f t cols rs st').map fun (o, st'') => (r' :: o, st'')
+
+def xfInsertMy {σ} (f : Xf σ) (sch : Schema) (i : Insert) (st : σ) : Option (Insert × σ) :=
+  match sch.table i.table with
+  | none => some (i, st)
+  | some t =>
+    let cols := insertColumns t i
+    if cols.isEmpty then some (i, st) else
+    (xfRowsMy f t cols i.rows st).map fun (rows, st') => ({ i with rows := rows }, st')
+
+/-- the statement as the MySQL query encryptor hands it on -/
+def forwardStmtMy (c : CryptoOps) (kv : KeyView) (sch : Schema) (s : Stmt) (rnd : Bytes) : Stmt :=
+  match s with
+  | .insert i => match xfInsertMy (encCellMy c kv) sch i rnd with | some (i', _) => .insert i' | none => s
+  | .update u => match xfUpdate (encCellMy c kv) sch u rnd with | some (u', _) => .update u' | none => s
+  | _ => s
+
+end AcraModel.Proxy
